@@ -106,12 +106,18 @@ def space_case(case, ctx):
                 break
         ks = ks[:300]
     del sp
-    for k in ks:
-        v = ctx.lib("subspace_vector", st.subspace_vector, int(k), size=n)
+    # the index as the integer types users actually hold: Python int, numpy integers of several widths (what np.arange,
+    # np.argmax and numpy random generators return) and a 0-dim numpy array
+    int_forms = [("int", int), ("numpy.int64", np.int64), ("numpy.int32", np.int32), ("numpy.intp", np.intp),
+                 ("numpy.uint32", np.uint32), ("0-dim ndarray", lambda q: np.array(q, dtype=np.int64))]
+    for pos_, k in enumerate(ks):
+        fname_, conv_ = int_forms[pos_ % len(int_forms)]
+        v = ctx.lib("subspace_vector", st.subspace_vector, conv_(int(k)), size=n, tags={"index_type": fname_})
         ctx.count("subspace_vectors_compared")
+        ctx.seen("index_types", fname_)
         if tuple(v.shape) != (n,) or v.numpy().astype(int).tolist() != bits(int(k), n):
-            ctx.violation("subspace-vector", f"subspace_vector({k}, size={n}) = {v.numpy().astype(int).tolist()}, bits {bits(int(k), n)}",
-                          tags={"size": n})
+            ctx.violation("subspace-vector", f"subspace_vector({k} given as {fname_}, size={n}) = shape {tuple(v.shape)} "
+                          f"{v.numpy().astype(int).reshape(-1).tolist()[:24]}, bits {bits(int(k), n)}", tags={"size": n, "index_type": fname_})
             break
     # the private index helper, if it still exists
     from qucumber.utils import unitaries
